@@ -502,13 +502,15 @@ func collisionMatrix(pool []helem) map[string]int {
 // ---- the child: decodes, then dumps ---------------------------------------------------------------------------------------
 
 type stepDump struct {
-	F     []field `json:"f"`
-	Panic string  `json:"panic,omitempty"`
-	Err   string  `json:"err,omitempty"` // text of the decode / validation error (not compared)
+	F     []field    `json:"f"`
+	Panic string     `json:"panic,omitempty"`
+	Err   string     `json:"err,omitempty"`  // text of the decode / validation error (not compared)
+	Copy  []copyDiff `json:"copy,omitempty"` // mode reuse-copy: earlier by-value copies that changed by this step's decode
 }
 
 type childResult struct {
-	Steps []stepDump `json:"steps"`
+	Steps           []stepDump `json:"steps"`
+	CopyComparisons int64      `json:"copy_comparisons,omitempty"`
 }
 
 const childMarker = "C12HISTORY "
@@ -648,6 +650,10 @@ func dumpDecoded(e *helem, d decoded) (out stepDump) {
 // the last decode. mode "reuse": one receiver per Go type is reused by every decode of that type; only the last step is
 // dumped (earlier values are overwritten).
 func runHistoryHere(pool []helem, mode string, hist []int) childResult {
+	if mode == modeReuseCopy {
+		res, _ := runReuseCopyHere(pool, hist)
+		return res
+	}
 	var tmp string
 	for _, i := range hist {
 		if pool[i].Files != nil && tmp == "" {
@@ -870,6 +876,8 @@ func renderHist(pool []helem, hist []int, mode string) string {
 		how = "all into one reused receiver per type"
 	} else if mode == "walk" {
 		how = "fresh receivers, inside the long in-process walk"
+	} else if mode == modeReuseCopy || mode == modeReuseCopyHere {
+		how = "all into one reused receiver; after every decode a by-value copy of the receiver is kept, no bytes cloned"
 	}
 	return "decode " + strings.Join(n, "  THEN  ") + " (" + how + ")"
 }
@@ -957,6 +965,9 @@ type histStats struct {
 	LastStepFails   int64            `json:"histories_whose_last_decode_fails_cleanly"`
 	Decodes         int64            `json:"decodes_in_child_processes"`
 	WalkDecodes     int64            `json:"decodes_in_the_in_process_walk"`
+	CopyComparisons int64            `json:"reuse_copy_comparisons_of_an_earlier_copy_after_a_later_decode"`
+	AliasInProcess  int64            `json:"reuse_copy_histories_in_process"`
+	EncoderChecks   int64            `json:"encoder_returned_bytes_stability_checks"`
 	Observations    []string         `json:"observations,omitempty"`
 	evals, distinct int64
 }
@@ -1129,6 +1140,61 @@ func runHistories(r *vf.Run, maxLen int) (st histStats) {
 			})
 		}
 	}
+	// aliasing supplement: reused receiver, a by-value copy kept after every step (see alias_test.go)
+	for length := 2; length <= maxLen; length++ {
+		hs := enumAliasHistories(pool, length)
+		key := fmt.Sprintf("%s/%d", modeReuseCopy, length)
+		parallel(int64(len(hs)), 4, func(_ int, lo, hi int64) {
+			for i := lo; i < hi; i++ {
+				hist := hs[i]
+				res, crashed, err := h.run(modeReuseCopy, hist)
+				if err != nil {
+					r.EngineError(err.Error())
+					continue
+				}
+				fs := judgeReuseCopy(pool, modeReuseCopy, hist, res, crashed)
+				for _, f := range fs {
+					report(r, f)
+				}
+				lastOK := crashed == "" && dumpDecodes(res.Steps[len(hist)-1]) == "succeeds"
+				mu.Lock()
+				st.Histories[key]++
+				st.Decodes += int64(len(hist))
+				st.CopyComparisons += res.CopyComparisons
+				st.evals++
+				if lastOK {
+					st.LastStepDecoded++
+					st.distinct++
+				} else {
+					st.LastStepFails++
+				}
+				if !sampled[key] && i == int64(len(hs))/2 {
+					sampled[key] = true
+					r.Sample(map[string]any{"part": "history", "mode": modeReuseCopy, "history": histNames(pool, hist), "violations": len(fs)})
+				}
+				mu.Unlock()
+				out := "copies-unchanged"
+				if len(fs) > 0 {
+					out = "violation:" + fs[0].clause
+				}
+				r.Outcome("history:" + modeReuseCopy + ":" + out)
+			}
+		})
+	}
+	{
+		afs, nh, nc, ne := runAliasInProcess(pool)
+		st.AliasInProcess = nh
+		st.CopyComparisons += nc
+		st.EncoderChecks = ne
+		st.evals += nh
+		for _, f := range afs {
+			report(r, f)
+		}
+		r.Outcome(fmt.Sprintf("history:alias-in-process:%d-findings", len(afs)))
+		if st.CopyComparisons == 0 || ne == 0 {
+			r.EngineError("aliasing supplement compared nothing")
+		}
+	}
 	st.Processes = h.procs
 	// supplement: one long history inside THIS process (whose state is whatever parts (a)-(c) left behind): every ordered
 	// pair decoded consecutively, each result compared with the fresh-process expectation
@@ -1188,6 +1254,27 @@ func replayHistory(r *vf.Run, ref caseRef) {
 	// expectations for the messages involved (all of them: cheap, and the pool self-check is part of the oracle)
 	exp, ok := h.expectations(r, &st)
 	if !ok || len(hist) < 2 {
+		return
+	}
+	if ref.Mode == modeReuseCopy || ref.Mode == modeReuseCopyHere || ref.Mode == modeEncoderStability {
+		var fs []finding
+		switch ref.Mode {
+		case modeReuseCopy:
+			res, crashed, err := h.run(ref.Mode, hist)
+			if err != nil {
+				r.EngineError(err.Error())
+				return
+			}
+			fs = judgeReuseCopy(pool, ref.Mode, hist, res, crashed)
+		case modeReuseCopyHere:
+			res, _ := runReuseCopyHere(pool, hist)
+			fs = judgeReuseCopy(pool, ref.Mode, hist, res, "")
+		default:
+			fs, _ = encoderStabilityPair(pool, hist[0], hist[1])
+		}
+		for _, f := range fs {
+			report(r, f)
+		}
 		return
 	}
 	if ref.Mode == "walk" {
